@@ -75,6 +75,9 @@ pub enum Sc {
         lookups: Vec<Bytes>,
         script: Vec<ReadStep>,
         corruptions: Vec<String>,
+        /// garbled algorithm names pushed through Digest::from_str
+        #[serde(default)]
+        alg_names: Vec<String>,
     },
     /// Summary call histories
     D { seed: u64, ops: Vec<DOp> },
@@ -160,7 +163,8 @@ fn corrupt(rng: &mut Rng, doc: &mut Vec<u8>, other: &[u8], log: &mut Vec<String>
             // exotic but valid UTF-8: Unicode digits and numerics that are not
             // ASCII digits, characters whose case mapping changes length,
             // ligatures, combining marks, zero-width and bidi controls
-            let pool: [&str; 20] = [
+            let pool: [&str; 24] = [
+                "\u{23a}", "\u{23e}", "\u{1e9e}", "\u{149}",
                 "\u{b2}", "\u{bd}", "\u{663}", "\u{ff13}", "\u{2163}", "\u{1d7d8}", "\u{1c5}", "\u{df}", "\u{130}", "\u{fb01}",
                 "\u{301}", "\u{200d}", "\u{200f}", "\u{2028}", "\u{a0}", "\u{3000}", "\u{212a}", "\u{17f}", "\u{e9}", "\u{10ffff}",
             ];
@@ -845,8 +849,16 @@ fn pipeline_c(
     files: &[(String, Bytes)],
     lookups: &[Bytes],
     script: &[ReadStep],
+    alg_names: &[String],
     ctx: &mut Ctx,
 ) -> Outcome {
+    for n in alg_names {
+        let r = Digest::from_str(n);
+        ep!(ctx, "Digest::from_str", r.is_ok());
+        // the same word as the first token of a distinfo line
+        let line = format!("{} (file.tgz) = 00\n", n);
+        let _ = Distinfo::from_bytes(line.as_bytes()).distfiles().len();
+    }
     let di = Distinfo::from_bytes(distinfo);
     ep!(ctx, "Distinfo::from_bytes", true);
     let out = di.as_bytes();
@@ -1253,12 +1265,34 @@ impl Property for C17 {
                     lookups.push(Bytes(l));
                 }
                 let len0 = files.first().map(|f| f.1 .0.len()).unwrap_or(0);
+                let mut alg_names: Vec<String> = Vec::new();
+                for _ in 0..rng.urange(1, 4) {
+                    // an algorithm name with characters whose case mapping changes
+                    // length, non-ASCII digits, combining marks ...
+                    let base = rng.pick_str(&["SHA1", "MD5", "sha512", "RMD160", "BLAKE2s", "Size", "SHA", "S"]);
+                    let mut chars: Vec<char> = base.chars().collect();
+                    for _ in 0..rng.urange(1, 3) {
+                        let c = *rng.pick(&[
+                            '\u{23a}', '\u{23e}', '\u{130}', '\u{1e9e}', '\u{149}', '\u{df}', '\u{17f}', '\u{212a}', '\u{fb01}', '\u{301}',
+                            '\u{661}', '\u{ff11}', '\u{0}', ' ',
+                        ]);
+                        let at = rng.urange(0, chars.len());
+                        if rng.chance(1, 2) || chars.is_empty() {
+                            chars.insert(at, c);
+                        } else {
+                            let at = at.min(chars.len() - 1);
+                            chars[at] = c;
+                        }
+                    }
+                    alg_names.push(chars.into_iter().collect());
+                }
                 Sc::C {
                     distinfo: Bytes(distinfo),
                     files,
                     lookups,
                     script: gen_read_script(rng, len0),
                     corruptions: log,
+                    alg_names,
                 }
             }
             _ => {
@@ -1336,12 +1370,13 @@ impl Property for C17 {
                 lookups,
                 script,
                 corruptions,
+                alg_names,
             } => {
                 ctx.probe("pipeline-C");
                 for c in corruptions {
                     count_corruption(ctx, c);
                 }
-                pipeline_c(&distinfo.0, files, lookups, script, ctx)
+                pipeline_c(&distinfo.0, files, lookups, script, alg_names, ctx)
             }
             Sc::D { seed, ops } => {
                 ctx.probe("pipeline-D");
@@ -1363,17 +1398,23 @@ impl Property for C17 {
         }
     }
 
-    fn shrink(&self, sc: &Sc) -> Vec<Sc> {
-        let mut out = Vec::new();
+    fn shrink(&self, sc: &Sc, emit: &mut dyn FnMut(Sc) -> bool) {
+        macro_rules! push {
+            ($e:expr) => {
+                if emit($e) {
+                    return;
+                }
+            };
+        }
         match sc {
             Sc::A { doc, script, buffered, corruptions } if !corruptions.is_empty() => {
-                out.push(Sc::A { doc: doc.clone(), script: script.clone(), buffered: *buffered, corruptions: vec![] });
+                push!(Sc::A { doc: doc.clone(), script: script.clone(), buffered: *buffered, corruptions: vec![] });
             }
             Sc::B { pkgs, chunks, hash_seed, extra_names, corruptions } if !corruptions.is_empty() => {
-                out.push(Sc::B { pkgs: pkgs.clone(), chunks: chunks.clone(), hash_seed: *hash_seed, extra_names: extra_names.clone(), corruptions: vec![] });
+                push!(Sc::B { pkgs: pkgs.clone(), chunks: chunks.clone(), hash_seed: *hash_seed, extra_names: extra_names.clone(), corruptions: vec![] });
             }
-            Sc::C { distinfo, files, lookups, script, corruptions } if !corruptions.is_empty() => {
-                out.push(Sc::C { distinfo: distinfo.clone(), files: files.clone(), lookups: lookups.clone(), script: script.clone(), corruptions: vec![] });
+            Sc::C { distinfo, files, lookups, script, corruptions, alg_names } if !corruptions.is_empty() => {
+                push!(Sc::C { distinfo: distinfo.clone(), files: files.clone(), lookups: lookups.clone(), script: script.clone(), corruptions: vec![], alg_names: alg_names.clone() });
             }
             _ => {}
         }
@@ -1385,7 +1426,7 @@ impl Property for C17 {
                 corruptions,
             } => {
                 for s in shrink_vec(script) {
-                    out.push(Sc::A {
+                    push!(Sc::A {
                         doc: doc.clone(),
                         script: s,
                         buffered: *buffered,
@@ -1393,7 +1434,7 @@ impl Property for C17 {
                     });
                 }
                 if buffered.is_some() {
-                    out.push(Sc::A {
+                    push!(Sc::A {
                         doc: doc.clone(),
                         script: script.clone(),
                         buffered: None,
@@ -1401,7 +1442,7 @@ impl Property for C17 {
                     });
                 }
                 for d in shrink_bytes(&doc.0) {
-                    out.push(Sc::A {
+                    push!(Sc::A {
                         doc: Bytes(d),
                         script: script.clone(),
                         buffered: *buffered,
@@ -1427,14 +1468,14 @@ impl Property for C17 {
                     for i in 0..pkgs.len() {
                         let mut p = pkgs.clone();
                         p.remove(i);
-                        out.push(mk(p, chunks.clone(), extra_names.clone()));
+                        push!(mk(p, chunks.clone(), extra_names.clone()));
                     }
                 }
                 if !chunks.is_empty() {
-                    out.push(mk(pkgs.clone(), vec![], extra_names.clone()));
+                    push!(mk(pkgs.clone(), vec![], extra_names.clone()));
                 }
                 if !extra_names.is_empty() {
-                    out.push(mk(pkgs.clone(), chunks.clone(), vec![]));
+                    push!(mk(pkgs.clone(), chunks.clone(), vec![]));
                 }
                 for (pi, p) in pkgs.iter().enumerate() {
                     for f in 0..p.files.len() {
@@ -1443,19 +1484,19 @@ impl Property for C17 {
                             if !mandatory {
                                 let mut q = pkgs.clone();
                                 q[pi].files[f] = None;
-                                out.push(mk(q, chunks.clone(), extra_names.clone()));
+                                push!(mk(q, chunks.clone(), extra_names.clone()));
                             }
                             for d in shrink_bytes(&b.0) {
                                 let mut q = pkgs.clone();
                                 q[pi].files[f] = Some(Bytes(d));
-                                out.push(mk(q, chunks.clone(), extra_names.clone()));
+                                push!(mk(q, chunks.clone(), extra_names.clone()));
                             }
                         }
                     }
                     for d in shrink_bytes(&p.name.0) {
                         let mut q = pkgs.clone();
                         q[pi].name = Bytes(d);
-                        out.push(mk(q, chunks.clone(), extra_names.clone()));
+                        push!(mk(q, chunks.clone(), extra_names.clone()));
                     }
                 }
             }
@@ -1465,40 +1506,52 @@ impl Property for C17 {
                 lookups,
                 script,
                 corruptions,
+                alg_names,
             } => {
+                for a in shrink_vec(alg_names) {
+                    push!(Sc::C {
+                        distinfo: distinfo.clone(),
+                        files: files.clone(),
+                        lookups: lookups.clone(),
+                        script: script.clone(),
+                        corruptions: corruptions.clone(),
+                        alg_names: a,
+                    });
+                }
                 let mk = |d: Vec<u8>, f: Vec<(String, Bytes)>, l: Vec<Bytes>, s: Vec<ReadStep>| Sc::C {
                     distinfo: Bytes(d),
                     files: f,
                     lookups: l,
                     script: s,
                     corruptions: corruptions.clone(),
+                    alg_names: alg_names.clone(),
                 };
                 for l in shrink_vec(lookups) {
-                    out.push(mk(distinfo.0.clone(), files.clone(), l, script.clone()));
+                    push!(mk(distinfo.0.clone(), files.clone(), l, script.clone()));
                 }
                 for f in shrink_vec(files) {
-                    out.push(mk(distinfo.0.clone(), f, lookups.clone(), script.clone()));
+                    push!(mk(distinfo.0.clone(), f, lookups.clone(), script.clone()));
                 }
                 for s in shrink_vec(script) {
-                    out.push(mk(distinfo.0.clone(), files.clone(), lookups.clone(), s));
+                    push!(mk(distinfo.0.clone(), files.clone(), lookups.clone(), s));
                 }
                 for d in shrink_bytes(&distinfo.0) {
-                    out.push(mk(d, files.clone(), lookups.clone(), script.clone()));
+                    push!(mk(d, files.clone(), lookups.clone(), script.clone()));
                 }
                 for (i, l) in lookups.iter().enumerate() {
                     for d in shrink_bytes(&l.0) {
                         let mut ls = lookups.clone();
                         ls[i] = Bytes(d);
-                        out.push(mk(distinfo.0.clone(), files.clone(), ls, script.clone()));
+                        push!(mk(distinfo.0.clone(), files.clone(), ls, script.clone()));
                     }
                 }
             }
             Sc::D { seed, ops } => {
                 for o in shrink_vec(ops) {
-                    out.push(Sc::D { seed: *seed, ops: o });
+                    push!(Sc::D { seed: *seed, ops: o });
                 }
                 if *seed != 0 {
-                    out.push(Sc::D {
+                    push!(Sc::D {
                         seed: 0,
                         ops: ops.clone(),
                     });
@@ -1511,7 +1564,7 @@ impl Property for C17 {
                 corruptions,
             } => {
                 for s in shrink_vec(script) {
-                    out.push(Sc::E {
+                    push!(Sc::E {
                         doc: doc.clone(),
                         script: s,
                         hash_seed: *hash_seed,
@@ -1519,7 +1572,7 @@ impl Property for C17 {
                     });
                 }
                 for d in shrink_bytes(&doc.0) {
-                    out.push(Sc::E {
+                    push!(Sc::E {
                         doc: Bytes(d),
                         script: script.clone(),
                         hash_seed: *hash_seed,
@@ -1528,7 +1581,6 @@ impl Property for C17 {
                 }
             }
         }
-        out
     }
 
     fn classify(&self, sc: &Sc, _v: &Violation) -> String {
@@ -1663,21 +1715,25 @@ fn count_corruption(ctx: &mut Ctx, name: &str) {
     ctx.fault(k);
 }
 
-/// Byte-level delta debugging candidates.
-fn shrink_bytes(b: &[u8]) -> Vec<Vec<u8>> {
-    let mut out = shrink_vec(b);
+/// Byte-level delta debugging candidates (lazy).
+fn shrink_bytes(b: &[u8]) -> impl Iterator<Item = Vec<u8>> + '_ {
     // line-wise removal helps structured documents
-    let lines: Vec<&[u8]> = b.split_inclusive(|&c| c == b'\n').collect();
-    if lines.len() > 1 && lines.len() <= 60 {
-        for i in 0..lines.len() {
-            let mut v = Vec::new();
-            for (j, l) in lines.iter().enumerate() {
-                if i != j {
-                    v.extend_from_slice(l);
-                }
-            }
-            out.push(v);
+    let lines: Vec<(usize, usize)> = {
+        let mut v = Vec::new();
+        let mut start = 0usize;
+        for l in b.split_inclusive(|&c| c == b'\n') {
+            v.push((start, start + l.len()));
+            start += l.len();
         }
-    }
-    out
+        if v.len() > 1 && v.len() <= 60 {
+            v
+        } else {
+            Vec::new()
+        }
+    };
+    shrink_vec(b).chain(lines.into_iter().map(move |(a, e)| {
+        let mut w = b[..a].to_vec();
+        w.extend_from_slice(&b[e..]);
+        w
+    }))
 }
